@@ -188,6 +188,8 @@ package keeper
 //@   requires has(farmers, bech(sender), poolId) ==> posWF(bech(sender), poolId)
 //@   let pl = POOL(poolId)
 //@   let fi = FARMER(bech(sender), poolId)
+//@   uses ridxRange(POOL(poolId).Rules, "")
+//@   uses ridxHit(POOL(poolId).Rules, 0)
 //@   modifies ruleF, pools, bal, farmers
 //@   ensures guards:   err == nil ==> old(has(pools, poolId)) && old(has(farmers, bech(sender), poolId)) && height <= pl.EndHeight
 //@   ensures rules:    err == nil ==> (forall d:Str :: has(ruleF, poolId, d) == old(has(ruleF, poolId, d))
